@@ -333,9 +333,9 @@ def compare_messages(ctx, st, key, src, ver, dmsgs, nmsgs, detail, second_pass: 
         groups.setdefault((b[0], b[4], b[5]), ([], []))[1].append(b)
     rest_d, rest_n = [], []
     for (ln, sev, text), (ds, ns) in groups.items():
-        pairs, ud, un = best_pairing(lines, ds, ns)
+        pairs, ud, un = best_pairing(lines, ds, ns, src)
         for a, b in pairs:
-            for obs, what in position_pair(lines, a, b):
+            for obs, what in position_pair(lines, a, b, src):
                 found.append((obs, what, ln))
         rest_d += ud
         rest_n += un
@@ -390,7 +390,7 @@ def compare_messages(ctx, st, key, src, ver, dmsgs, nmsgs, detail, second_pass: 
         _report(ctx, st, obs, what, detail)
 
 
-def best_pairing(lines, ds: list, ns: list):
+def best_pairing(lines, ds: list, ns: list, src: str = ""):
     """Pair the default's and the native's spans of one (line, severity, text): exact matches first, then the
     assignment with the fewest unexplained pairs."""
     import itertools
@@ -411,7 +411,7 @@ def best_pairing(lines, ds: list, ns: list):
     small, large, flip = (ds, ns, False) if len(ds) <= len(ns) else (ns, ds, True)
     for perm in itertools.permutations(range(len(large)), len(small)):
         cand = [((small[i], large[j]) if not flip else (large[j], small[i])) for i, j in enumerate(perm)]
-        bad = sum(1 for a, b in cand if any(o["class"] == "diagnostics-differ" for o, _ in position_pair(lines, a, b)))
+        bad = sum(1 for a, b in cand if any(o["class"] == "diagnostics-differ" for o, _ in position_pair(lines, a, b, src)))
         if best is None or bad < best[0]:
             best = (bad, cand, perm)
             if bad == 0:
@@ -419,6 +419,52 @@ def best_pairing(lines, ds: list, ns: list):
     _, cand, perm = best
     left = [large[j] for j in range(len(large)) if j not in perm]
     return cand, (left if flip else []), ([] if flip else left)
+
+
+_TYPE_CTX_CACHE: dict = {}
+
+
+def type_contexts(src: str):
+    """(spans of type expressions: parameter / return / variable annotations and type-parameter bounds;
+    start positions of lambda expressions) from the host `ast`; None when the host cannot parse the file."""
+    if src in _TYPE_CTX_CACHE:
+        return _TYPE_CTX_CACHE[src]
+    try:
+        with warnings.catch_warnings():
+            warnings.simplefilter("ignore")
+            tree = ast.parse(src)
+    except (SyntaxError, ValueError, RecursionError):
+        _TYPE_CTX_CACHE[src] = None
+        return None
+    spans, lambdas = [], set()
+    for node in ast.walk(tree):
+        for field in ("annotation", "returns", "bound", "default_value"):
+            a = getattr(node, field, None)
+            if isinstance(a, ast.AST) and hasattr(a, "lineno"):
+                spans.append(((a.lineno, a.col_offset), (a.end_lineno, a.end_col_offset)))
+        if isinstance(node, ast.Lambda):
+            lambdas.add((node.lineno, node.col_offset))
+        if hasattr(ast, "TypeAlias") and isinstance(node, ast.TypeAlias):
+            a = node.value
+            spans.append(((a.lineno, a.col_offset), (a.end_lineno, a.end_col_offset)))
+    if len(_TYPE_CTX_CACHE) > 64:
+        _TYPE_CTX_CACHE.clear()
+    _TYPE_CTX_CACHE[src] = (spans, lambdas)
+    return _TYPE_CTX_CACHE[src]
+
+
+def no_end_reason(src: str, line: int, col: int) -> str | None:
+    """Why the default front end has no end position at (line, 0-based column): the two node kinds whose
+    converters (TypeConverter; visit_Lambda) set line and column only."""
+    ctx = type_contexts(src)
+    if ctx is None:
+        return None
+    spans, lambdas = ctx
+    if (line, col) in lambdas:
+        return "default-reports-no-end-position-for-lambda"
+    if any(lo <= (line, col) < hi for lo, hi in spans):
+        return "default-reports-no-end-position"
+    return None
 
 
 def _balanced(text: str) -> bool:
@@ -470,15 +516,19 @@ def _start_mechanisms(line: str, a, b) -> list[str] | None:
     return None
 
 
-def _end_mechanisms(lines, line: str, a, b, start: list[str]) -> list[str] | None:
+def _end_mechanisms(lines, line: str, a, b, start: list[str], src: str = "") -> list[str] | None:
     if (a[2], a[3]) == (b[2], b[3]):
         return []
     if None in (a[2], a[3], b[2], b[3]):
         return None
     if ("except-as-name-column" in start or "mapping-pattern-rest-column" in start) and (b[2], b[3]) <= (a[2], a[3]):
         return []            # whole construct vs the name inside it
+    if a[2] == a[0] and a[3] == a[1] + 1 and b[2] == b[0] and b[3] == b[1] + 1 and start:
+        return []            # neither front end has an end here (a note): column+1 follows the start column
     if a[2] == a[0] and a[3] == a[1] + 1 and (b[2], b[3]) > (a[2], a[3]):
-        return ["default-reports-no-end-position"]
+        why = no_end_reason(src, a[0], a[1])
+        if why is not None:
+            return [why]
     if a[2] == b[2] and 1 <= a[2] <= len(lines):
         eline = lines[a[2] - 1]
         if a[3] > b[3] and set(eline[b[3]:a[3]]) <= set(") \t") and ")" in eline[b[3]:a[3]]:
@@ -491,7 +541,8 @@ def _end_mechanisms(lines, line: str, a, b, start: list[str]) -> list[str] | Non
 
 
 EXPLAIN = {
-    "default-reports-no-end-position": "the default front end has no end for this node (the clamp supplies column+1)",
+    "default-reports-no-end-position": "a type expression: the default front end's TypeConverter sets no end (the clamp supplies column+1)",
+    "default-reports-no-end-position-for-lambda": "a lambda: the default front end's visit_Lambda sets no end (the clamp supplies column+1)",
     "parenthesised-operand-span": "the default front end's span includes the parentheses around the first / last operand, the native one does not",
     "generator-argument-span-includes-call-parentheses": "generator expression as sole call argument: span with / without the call's parentheses",
     "fstring-field-expression-start-column": "expression of an f-string replacement field: the default front end starts at the `{`",
@@ -504,7 +555,7 @@ EXPLAIN = {
 }
 
 
-def position_pair(lines, a, b) -> list[tuple[dict, str]]:
+def position_pair(lines, a, b, src: str = "") -> list[tuple[dict, str]]:
     """a = default's message, b = native's: same line / severity / text, different spans → the mechanisms."""
     line = lines[a[0] - 1] if 1 <= a[0] <= len(lines) else ""
     da = "%s:%s-%s:%s" % (a[0], a[1], a[2], a[3])
@@ -524,7 +575,7 @@ def position_pair(lines, a, b) -> list[tuple[dict, str]]:
     if a[1] is None or b[1] is None:
         return [({"class": "diagnostics-differ", "kind": "position"}, what)]
     sm = _start_mechanisms(line, a, b)
-    em = _end_mechanisms(lines, line, a, b, sm or []) if sm is not None else None
+    em = _end_mechanisms(lines, line, a, b, sm or [], src) if sm is not None else None
     if sm is None or em is None:
         return [({"class": "diagnostics-differ", "kind": "start-position" if sm is None else "end-position"}, what)]
     mechs = list(dict.fromkeys(sm + em))
@@ -629,7 +680,8 @@ def signature_case(ctx, s, src, m_def, m_nat, obs, reported: set) -> None:
         elif d[0] != n[0] and dup is None:
             rep({"class": "blocking-status-differs", "where": "signature"},
                 "%r: default %s %r, native %s" % (src, d[0], d[1] if d[0] != "ok" else "", n[0]))
-        else:
+        elif "nfi" not in reported:
+            reported.add("nfi")
             ctx.violation("signature correspondence broken (model ≠ default front end) for %r: impl %r, model %r"
                           % (src, d[1] if d[0] == "ok" else d, m_def),
                           {"broken": "correspondence Driver/C14 `args` vs fastparse.ASTConverter.transform_args / do_func_def / "
@@ -665,6 +717,9 @@ def signature_case(ctx, s, src, m_def, m_nat, obs, reported: set) -> None:
     if only_posonly_dunder(m_nat["args"], n[1]["args"]) and n[1]["args"] == m_def["args"]:
         # the native front end now agrees with the default one where the model says it does not: the model of the
         # external writer is out of date, no clause of the property fails
+        if "nfi-native" in reported:
+            return
+        reported.add("nfi-native")
         ctx.violation("model of the native front end out of date: %r now gives %r (model %r)" % (src, n[1]["args"], m_nat["args"]),
                       {"broken": "correspondence Driver/C14 `args` (native variant) vs nativeparse.read_parameters", **detail},
                       found_input=False)
@@ -740,7 +795,8 @@ def tag_e2e_case(ctx, tag: str, m, obs, reported: set) -> None:
         if (d[0], d[1], d[2]) != (n[0], n[1], n[2]):
             rep({"class": "type-ignore-differs-between-front-ends", "tag_model": "invalid" if m is None else "codes"},
                 "`# type: ignore%s`: default front end %r %r, native %r %r, model %r" % (tag, d[0], d[1], n[0], n[1], m))
-        else:
+        elif "nfi" not in reported:
+            reported.add("nfi")
             ctx.violation("type-ignore correspondence broken (model ≠ default front end) for tag %r: impl %r %r, model %r" % (tag, d[0], d[1], m),
                           {"broken": "correspondence Driver/C14 `tag` vs ASTConverter.visit_Module / parse_type_ignore_tag", **detail},
                           found_input=False)
@@ -793,7 +849,8 @@ def cfg_case(ctx, source: str, m, real, nat, reported: set) -> None:
         if isinstance(nat, list) and canon(real) != canon(nat) and _lines_in_strings(source) == set():
             rep({"class": "inline-config-comments-differ-between-front-ends"},
                 "get_mypy_comments(%r) = %r, native front end %r, model %r" % (source, real, nat, m))
-        else:
+        elif "nfi" not in reported:
+            reported.add("nfi")
             ctx.violation("inline-config correspondence broken (model ≠ util.get_mypy_comments) for %r: impl %r, model %r" % (source, real, m),
                           {"broken": "correspondence Driver/C14 `cfg` vs mypy.util.get_mypy_comments (theorem mypyComments_iff)", **detail},
                           found_input=False)
